@@ -97,6 +97,23 @@ theorem numbers_compare_numerically :
   ⟨fun m e => ⟨Dy.norm_normal m e, Dy.norm_valEq m e⟩, fun _ => Or.inl rfl,
    fun a b ha hb => ⟨fun h => by subst h; rfl, Dy.normal_unique ha hb⟩⟩
 
+/-- FLOAT against INT (and NUMBER), in both operand orders, is an exact comparison of the two values: a FLOAT Var holds
+the exact dyadic value of its C++ float, and an INT is never rounded to float — `Var(16777216.0f) == Var(16777217)`
+is false both ways. -/
+theorem eq_float_int_exact (f : Nat) (h : Heap) (d e : Dy) (i : Int) :
+    eqV (f + 1) h (.flt d) (.int i) = .ok (decide (Dy.ofInt i = d)) ∧
+    eqV (f + 1) h (.int i) (.flt d) = .ok (decide (d = Dy.ofInt i)) ∧
+    eqV (f + 1) h (.flt d) (.num e) = .ok (decide (e = d)) ∧
+    eqV (f + 1) h (.num e) (.flt d) = .ok (decide (d = e)) := by
+  simp only [eqV, numOf, beq_iff_eq, Option.some.injEq, Bool.decide_eq_true, decide_eq_decide]
+  refine ⟨?_, ?_, ?_, ?_⟩ <;> congr 1 <;> simp [BEq.beq]
+
+example : eqV 1 [] (.flt (Dy.norm 16777216 0)) (.int 16777217) = .ok false ∧
+    eqV 1 [] (.int 16777217) (.flt (Dy.norm 16777216 0)) = .ok false ∧
+    eqV 1 [] (.flt (Dy.norm 2147483648 0)) (.int 2147483647) = .ok false ∧
+    eqV 1 [] (.flt (Dy.norm 16777216 0)) (.int 16777216) = .ok true := by
+  refine ⟨?_, ?_, ?_, ?_⟩ <;> rfl
+
 /-! ## assign_spec: assignment leaves the target equal to the assigned value, also for a source inside the target -/
 
 /-- does the statement mention root variable `k`? -/
